@@ -984,6 +984,24 @@ func isBlank(e ast.Expr) bool {
 }
 
 func (r *rewriter) rewriteRange(c *astutil.Cursor, n *ast.RangeStmt) {
+	// range over maps.Keys(m) / maps.Values(m) / maps.All(m) is a map range in disguise
+	if call, ok := ast.Unparen(n.X).(*ast.CallExpr); ok && len(call.Args) == 1 {
+		if sel, ok := call.Fun.(*ast.SelectorExpr); ok && r.pkgNameOf(sel.X) == "maps" && n.Tok == token.DEFINE {
+			if mt := r.info.TypeOf(call.Args[0]); mt != nil {
+				if _, isMap := mt.Underlying().(*types.Map); isMap {
+					switch sel.Sel.Name {
+					case "Keys", "All":
+						n.X = call.Args[0]
+					case "Values":
+						if n.Value == nil {
+							n.X = call.Args[0]
+							n.Key, n.Value = ast.NewIdent("_"), n.Key
+						}
+					}
+				}
+			}
+		}
+	}
 	t := r.info.TypeOf(n.X)
 	if t == nil {
 		return
@@ -1174,7 +1192,7 @@ func (r *rewriter) fixImports() {
 			}
 			name = imp.Name.Name
 		}
-		if p == "os" || p == "sync" || p == "time" || p == "sync/atomic" || p == "runtime" {
+		if p == "os" || p == "sync" || p == "time" || p == "sync/atomic" || p == "runtime" || p == "maps" {
 			if !r.usesName(name) {
 				if imp.Name != nil {
 					astutil.DeleteNamedImport(r.fset, r.file, imp.Name.Name, p)
